@@ -243,6 +243,7 @@ func runBatchSequential(ctx context.Context, node Node, items []Result, results 
 		if ctx.Err() != nil {
 			results[i] = NewErrorResult(fmt.Errorf("context cancelled"))
 			if errorHandling == "stop" {
+				markUnprocessed(results[i+1:])
 				break
 			}
 			continue
@@ -252,6 +253,7 @@ func runBatchSequential(ctx context.Context, node Node, items []Result, results 
 		if err != nil {
 			results[i] = NewErrorResult(err)
 			if errorHandling == "stop" {
+				markUnprocessed(results[i+1:])
 				break
 			}
 		} else {
@@ -261,6 +263,14 @@ func runBatchSequential(ctx context.Context, node Node, items []Result, results 
 				results[i] = NewResult(execResult)
 			}
 		}
+	}
+}
+
+// markUnprocessed marks the slots of items that were never processed as errors,
+// so that Post cannot mistake them for successful nil results.
+func markUnprocessed(results []Result) {
+	for i := range results {
+		results[i] = NewErrorResult(fmt.Errorf("batch stopped due to error"))
 	}
 }
 
